@@ -441,11 +441,11 @@ const (
 	c08Fulfill
 	c08Fail
 	c08NumFaultKinds // kinds below cannot trigger a cut
-	c08Reest    = c08NumFaultKinds
-	c08Other    = c08NumFaultKinds + 1
-	c08PeerErr  = c08NumFaultKinds + 2
-	c08Epoch    = c08NumFaultKinds + 3 // marker: new connection epoch
-	c08NumKinds = c08NumFaultKinds + 4
+	c08Reest         = c08NumFaultKinds
+	c08Other         = c08NumFaultKinds + 1
+	c08PeerErr       = c08NumFaultKinds + 2
+	c08Epoch         = c08NumFaultKinds + 3 // marker: new connection epoch
+	c08NumKinds      = c08NumFaultKinds + 4
 )
 
 var c08KindNames = [...]string{
